@@ -1,5 +1,6 @@
 """check configuration for C12 (see lib/vcheck.py)"""
 CONFIG = dict(
+    required_tags=['cur-roundtrip', 'ico-roundtrip', 'text-compared', 'fsck-must-pass', 'fsck-must-fail', 'walk-complete'],
     claim="Machine-checked proof over an executable model of resources/{mod,find,group,art}.rs and Pe::resources(): "
           "the entry array of a directory is the named entries followed by the ID entries at off+16+8i, inside the section and aligned for every Directory value "
           "(C12_entries_named_then_ids, C12_entries_positions, C12_entries_safe); names and data entries are exactly what the bytes say, both ways - a data entry yields Size bytes "
@@ -61,6 +62,7 @@ CONFIG = dict(
                   "Spec/Cur.v: the .cur file and RT_GROUP_CURSOR / RT_CURSOR layouts (bColorCount / bReserved of the file are not kept by the resource format: canonical 0)"],
     assumptions=["usize is 64 bits; section bytes are bytes (sec_ok) where a theorem says so; query strings are valid Unicode scalar sequences; stored ids < 2^32",
                  "fsck accepts at most 32 nested directories and len/8 visited entries (repair of F16); write reports InvalidData when offsets exceed u32 (repair of F26) and when a cursor entry has no resource of at least 4 bytes or dwBytesInRes < 4 (repair of F44)",
-                 "cursor files: width < 2^16, 2*height < 2^16, hotspots < 2^16, resource ids < 2^16, file below 4 GiB (Cur.image_ok; the ranges of the 16-bit group fields)"],
+                 "cursor files: width < 2^16, 2*height < 2^16, hotspots < 2^16, resource ids < 2^16, file below 4 GiB (Cur.image_ok; the ranges of the 16-bit group fields)",
+                 "the reassembly theorems (icon and cursor) cover groups in which every entry's dwBytesInRes equals the length of the resource its nId names (piece_ok: what a resource compiler writes, and the only groups that come from an .ico/.cur file); on a mismatch GroupResource::write takes sizes and offsets from the group entries and the bytes from the resources (the FIXME in group.rs), the output is not a well-formed file, and the harness tags the case write-mismatched-group without judging it (third audit, F7)"],
     open_statements=[],
 )
